@@ -14,7 +14,7 @@ def configs(tier):
     R = lambda dt, atom, it, route, N, feats: rag.append({'dtype': dt, 'atom': atom, 'indextype': it, 'route': route,
                                                           'Nmax': N, 'oracles': ['readme'], 'features': feats})
     if tier == 'quick':
-        A('<f8', [], 0, 2)
+        A('<f8', [], 0, 1)
         A('>i2', [2], 1, 2)
         R('<f8', [], 'int64', 'create', 7, ['long'])
         R('>i4', [2], 'int32', 'as2', 7, ['long'])
